@@ -481,8 +481,12 @@ def standard_check(prop, tier, seed, fam):
     if harness_err:
         # a protocol problem taints its own run only: violations observed in runs without such a
         # problem are still observations of real behaviour
-        tainted = set((v["trace_file"], v["run"]) for v in harness_err)
-        mine = [v for v in mine if (v["trace_file"], v["run"]) not in tainted]
+        # (only from the point where it occurred: what was observed earlier in that run stands)
+        tainted = {}
+        for v in harness_err:
+            k = (v["trace_file"], v["run"])
+            tainted[k] = min(tainted.get(k, v["seq"]), v["seq"])
+        mine = [v for v in mine if v["seq"] < tainted.get((v["trace_file"], v["run"]), 1 << 60)]
         if not mine:
             raise Inconclusive("harness/monitor protocol error (not a verdict): %s" % harness_err[:3])
         notes.append("%d runs had harness/monitor protocol errors (e.g. %s); their events were not judged" % (len(tainted), harness_err[0]["name"]))
